@@ -78,13 +78,20 @@ def run(ctx):
                         break
                     problems, overlap = instr_mon.check_serial(events, top_keys)
                     ctx.counters["max_overlap"] = max(ctx.counters["max_overlap"], overlap)
+                    aborted = set(p[0] for p in ref[3].type_failures if len(p) == 1)
                     for k, detail in problems[:1]:
+                        earlier = detail.split(" before ")[-1].split(" finished")[0].strip("'\"")
+                        if k == "serial:later-field-started-early" and earlier in aborted:
+                            # the earlier field was nulled by a failing type resolver while parts of its
+                            # sub-selection were still in flight
+                            k = "serial:later-field-started-while-aborted-field-still-resolving"
                         ctx.violation("%s:%s" % (k, config), w, detail)
                     d = refexec.compare_data(out[1], ref[1])
                     if d:
                         kind = "response-order" if str(d[1]).startswith("keys") else "data-differs"
                         ctx.violation("%s:%s" % (kind, config), w, "at %r outcome=%r model=%r" % (list(d[0]), d[1], d[2]))
-                    elif sorted([p for p, _k in ref[2]], key=repr) != out[2]:
+                    elif refexec.drop_under_aborted(sorted([p for p, _k in ref[2]], key=repr), ref[3]) != \
+                            refexec.drop_under_aborted(out[2], ref[3]):
                         ctx.violation("error-paths-differ:%s" % config, w, "outcome=%r" % (out[2][:5],))
                     if problems:
                         break
